@@ -8,6 +8,7 @@ import (
 	"crypto/hmac"
 	"fmt"
 	"hash"
+	"io"
 	"testing"
 
 	"github.com/tjfoc/gmsm/sm3"
@@ -32,6 +33,25 @@ func TestMain(m *testing.M) {
 func refSelf(t *testing.T) {
 	if fmt.Sprintf("%x", rsm3.Sum([]byte("abc"))) != "66c7f0f462eeedd9d1f2d46bdc10e4e24167c4875cf2f7a2297da02b8f4ba8e0" {
 		t.Fatal("reference SM3 broken")
+	}
+}
+
+// hostileWrite hands the hash a private copy of data that sits in a larger buffer (spare capacity
+// filled with a canary), checks that the hash did not write behind it, and then scribbles over
+// the copy: a hash that keeps a reference to the caller's slice instead of copying shows up in
+// the next digest.
+func hostileWrite(t interface{ Fatalf(string, ...any) }, h io.Writer, data []byte, spare int) {
+	buf := gen.WithCap(data, spare, 0x3C)
+	n, err := h.Write(buf)
+	if n != len(data) || err != nil {
+		t.Fatalf("Write returned %d,%v for %d bytes", n, err, len(data))
+	}
+	if !bytes.Equal(buf, data) || !gen.SpareIntact(buf, 0x3C) {
+		t.Fatalf("Write modified the caller's buffer or the memory behind it")
+	}
+	full := buf[:cap(buf)]
+	for i := range full {
+		full[i] = 0xDD
 	}
 }
 
@@ -103,10 +123,7 @@ func TestC04_Chunking(t *testing.T) {
 			if c == 0 {
 				empty = true
 			}
-			n, err := h.Write(m[off : off+c])
-			if n != c || err != nil {
-				t.Fatalf("Write returned %d,%v for %d bytes", n, err, c)
-			}
+			hostileWrite(t, h, m[off:off+c], rapid.SampledFrom([]int{0, 1, 64, 200}).Draw(t, "spare"))
 			off += c
 		}
 		want := rsm3.Sum(m)
@@ -114,8 +131,12 @@ func TestC04_Chunking(t *testing.T) {
 		if !bytes.Equal(got, want) {
 			t.Fatalf("chunked digest mismatch len=%d plan=%v: got %x want %x", len(m), plan, got, want)
 		}
-		if one := sm3.Sm3Sum(m); !bytes.Equal(one, want) {
+		mc := gen.WithCap(m, 80, 0x3C)
+		if one := sm3.Sm3Sum(mc); !bytes.Equal(one, want) {
 			t.Fatalf("one-shot mismatch len=%d: got %x want %x", len(m), one, want)
+		}
+		if !bytes.Equal(mc, m) || !gen.SpareIntact(mc, 0x3C) {
+			t.Fatalf("Sm3Sum wrote into its argument or the memory behind it (len=%d)", len(m))
 		}
 		cls := []string{lenClass(len(m))}
 		if empty {
@@ -147,15 +168,15 @@ func TestC04_StateMachine(t *testing.T) {
 			if !bytes.Equal(in[:len(prefix)], keep) {
 				t.Fatalf("history %v: Sum modified the caller's prefix bytes", hist)
 			}
+			for i := range out { // the returned slice belongs to the caller: scribbling on it must not affect the hash
+				out[i] ^= 0xA7
+			}
 			sums++
 		}
 		t.Repeat(map[string]func(*rapid.T){
 			"write": func(t *rapid.T) {
 				x := gen.Bytes(gen.LenAround(64, 200)).Draw(t, "x")
-				n, err := h.Write(x)
-				if n != len(x) || err != nil {
-					t.Fatalf("Write=%d,%v", n, err)
-				}
+				hostileWrite(t, h, x, rapid.SampledFrom([]int{0, 0, 7, 64, 100}).Draw(t, "wspare"))
 				model = append(model, x...)
 				hist = append(hist, fmt.Sprintf("W%d", len(x)))
 				if len(x) == 0 {
@@ -260,12 +281,14 @@ func TestC04_Streams(t *testing.T) {
 		h := sm3.New()
 		off := 0
 		writes := 0
+		var scratch []byte
 		for off < size {
 			c := rapid.SampledFrom([]int{1, 63, 64, 65, 4096, 65536, 1<<20 + 1}).Draw(t, "chunk")
 			if off+c > size {
 				c = size - off
 			}
-			h.Write(m[off : off+c])
+			scratch = append(scratch[:0], m[off:off+c]...) // one reused scratch buffer, like io.Copy
+			h.Write(scratch)
 			off += c
 			writes++
 			if writes > 4000 { // keep the tail cheap
